@@ -421,6 +421,10 @@ class Unit:
             elif name == "letty":
                 a, b = full.split(":", 1)
                 item["letty"][a.strip()] = b.strip()
+            elif name == "binop":
+                # @binop == => helper : every `A == B` of the function becomes helper(A, B)
+                a, b = [x.strip() for x in full.split("=>")]
+                item.setdefault("binops", []).append((a, b))
             elif name == "callmap":
                 # @callmap .method() => func(&self_expr)   written as:  method => func
                 a, b = [x.strip() for x in full.split("=>")]
@@ -1107,6 +1111,19 @@ class Gen:
                 if p["k"] == "PatIdent" and p["a"]["ident"] in it["letty"]:
                     ed.insert(p["e"], ": " + it["letty"][p["a"]["ident"]], ("rule", "R10"))
                     self.fired("R10")
+        # R19: comparison operators whose operand types Verus has no usable spec for -> trusted helper (operands verbatim)
+        for op, helper in it.get("binops", []):
+            hit = 0
+            for n in walk(body):
+                if n["k"] == "Binary" and n["a"]["op"] == op:
+                    A, B = kid(n, "left"), kid(n, "right")
+                    ed.replace(n["s"], A["s"], helper + "(", ("rule", "R19"))
+                    ed.replace(A["e"], B["s"], ", ", ("rule", "R19"))
+                    ed.replace(B["e"], n["e"], ")", ("rule", "R19"))
+                    hit += 1
+                    self.fired("R19")
+            if not hit:
+                raise Inconclusive(f"lost anchor: {it['name']}: no `{op}` expression")
         # R11: trait-method -> free fn via checked forwarding impls
         for meth, func in it["callmap"]:
             hit = 0
@@ -1162,6 +1179,15 @@ class Gen:
             if not cl.active(self.prop):
                 continue
             self.reg(cl)
+            if anchor.strip() == "tail":
+                # bind the tail expression: `E`  ->  `let __r = E; <proof text> __r`
+                last = [c for c in body["c"] if c["r"] == "stmt"]
+                if not last or last[-1]["k"] != "StmtExpr" or last[-1]["a"].get("semi"):
+                    raise Inconclusive(f"lost anchor: {it['name']} has no tail expression")
+                te = last[-1]
+                ed.insert(te["s"], "let __r = ", ("glue",))
+                ed.insert(te["e"], ";\n" + cl.text + "\n__r", ("clause", cl.id))
+                continue
             pos = self.resolve_anchor(it, src, body, loops, anchor)
             ed.insert(pos, "\n" + cl.text + "\n", ("clause", cl.id))
 
